@@ -237,6 +237,19 @@ M = [('r3_revert_D3_eventmonitor_port',
    ('        self._features    = features\n',
     '        self._features    = frozenset(Feature(f) for f in features)\n')],
   None),
+ # D15 reverted: the subordinate is recorded before its window is accepted
+ ('r19_D15_csr_decoder_add_store_first',
+  'amaranth_soc/csr/bus.py',
+  [('        window_range = self.bus.memory_map.add_window(sub_bus.memory_map, name=name, addr=addr)\n        # The subordinate is only recorded once its window has been accepted.\n        self._subs[sub_bus.memory_map] = sub_bus\n        return window_range\n',
+    '        self._subs[sub_bus.memory_map] = sub_bus\n        return self.bus.memory_map.add_window(sub_bus.memory_map, name=name, addr=addr)\n')],
+  None),
+ ('r20_D15_wb_decoder_add_store_first',
+  'amaranth_soc/wishbone/bus.py',
+  [('        # The subordinate is only recorded once its window has been accepted.\n        self._subs[sub_bus.memory_map] = sub_bus\n        return window_range\n',
+    '        return window_range\n'),
+   ('        window_range = self.bus.memory_map.add_window(sub_bus.memory_map, name=name, addr=addr,\n',
+    '        self._subs[sub_bus.memory_map] = sub_bus\n        window_range = self.bus.memory_map.add_window(sub_bus.memory_map, name=name, addr=addr,\n')],
+  None),
  ('r17_D12_pinsignature_eq_constant',
   'amaranth_soc/gpio.py',
   [('        return isinstance(other, PinSignature)\n',
